@@ -1,6 +1,7 @@
 import OnlVerif.Lemmas.TcpSink
 import OnlVerif.Lemmas.TcpSender
 import OnlVerif.Lemmas.TcpLoop
+import OnlVerif.Lemmas.TcpLiveQuiet
 /-!
 # C16 — TCP acknowledgements are cumulative and correct; all data gets through
 
@@ -16,7 +17,7 @@ patterns against the real code as a failing-input search, not as that proof.
 -/
 
 namespace C16
-open TcpSink TcpSender TcpScalar TcpCC TcpLoop
+open TcpSink TcpSender TcpScalar TcpCC TcpLoop TcpLive
 
 /-! ## the sink -/
 
@@ -205,6 +206,50 @@ theorem acks_in_flight_are_backed_partial (s0 : Sender ℚ) (l : Loop ℚ) (h0 :
     obtain ⟨n, hn, _⟩ := ackOf_isPrefix _ hsep' (packetArrived_ne_nil l.sink tx.seq tx.size)
     exact ⟨n, by unfold TcpSink.put; exact hn⟩
 
+/-! ### liveness, safety half: no premature quiescence -/
+
+/-- **If the run ends, everything was delivered and acknowledged.**  Take a freshly constructed generator for a
+finite flow of `n > 0` bytes, `n` a multiple of the generator's segment size `mss > 0`, around a congestion-control
+object with `cwnd ≥ cc.mss > 0`, `ssthresh ≥ 0` (`CCInv`) whose own MSS is not smaller than the generator's
+(`mss ≤ cc.mss`; both are 512 by default), with `rtt_estimate > 0`.  In **every** state `l` of the closed loop
+sender ∥ lossy FIFO data path ∥ sink ∥ lossy FIFO ACK path reachable from it - any interleaving of sender bursts,
+deliveries, ACK arrivals, clock ticks, and any packet or ACK lost at any time - in which the simulation kernel has no
+event left (`Loop.Quiescent`: nothing in flight in either direction, no live retransmission timer, `run` neither
+scheduled nor about to be handed a wake-up token; this is when the real `env.run()` returns), the sink's receive buffer
+is exactly `[(0, n)]` and `last_ack = n`.  So losses can delay the transfer but the protocol never gives up early:
+while a segment or its acknowledgement is missing something is still pending. -/
+theorem quiescent_implies_complete (kind : CCKind) (cc : CCState ℚ) (rtt : ℚ) (mss n : Nat) (now : ℚ)
+    (hcc : CCInv kind cc) (hrtt : 0 < rtt) (hn : 0 < n) (hm : 0 < mss) (hd : mss ∣ n) (hc : (mss : ℚ) ≤ cc.mss)
+    (l : Loop ℚ) (hr : LReach (Loop.init (Sender.init kind cc rtt mss (some n) now)) l) (hq : l.Quiescent) :
+    l.sink = [(0, n)] ∧ l.snd.last_ack = n :=
+  quiescent_complete (reach_LInv (LInv_init (fresh_init kind cc rtt mss n now hcc hrtt hn hm hd hc)) hr) hq
+
+/-- `Loop.Quiescent` means what it should: in a quiescent state no action of the closed loop other than the passing
+of time is accepted (no resumption of `run`, no hand-off, no timer expiry, no delivery, no ACK arrival, nothing to
+lose) -/
+theorem quiescent_means_no_event (l : Loop ℚ) (hq : l.Quiescent) (a : LAct ℚ) (hnt : ∀ t, a ≠ .own (.tick t)) :
+    l.step a = none :=
+  quiescent_no_event hq a hnt
+
+/-- the invariant behind it, for every reachable state (quiescent or not): while anything is unacknowledged the first
+unacknowledged segment is under a retransmission timer; a blocked `run` with no token pending has something
+outstanding; every ACK in flight still finds the timer of the segment at its number; the sink holds whole aligned
+segments below `next_seq`, everything below `last_ack`, and whatever it lacks below `next_seq` is timed -/
+theorem liveness_invariant (kind : CCKind) (cc : CCState ℚ) (rtt : ℚ) (mss n : Nat) (now : ℚ)
+    (hcc : CCInv kind cc) (hrtt : 0 < rtt) (hn : 0 < n) (hm : 0 < mss) (hd : mss ∣ n) (hc : (mss : ℚ) ≤ cc.mss)
+    (l : Loop ℚ) (hr : LReach (Loop.init (Sender.init kind cc rtt mss (some n) now)) l) :
+    (l.snd.last_ack < l.snd.next_seq → l.snd.last_ack ∈ AL.keys l.snd.timers) ∧
+    (l.snd.proc = .blocked → 0 < l.snd.tokens ∨ l.snd.last_ack < l.snd.next_seq) ∧
+    (l.snd.proc = .finished → l.snd.next_seq = n) ∧
+    (∀ a ∈ l.acks, l.snd.last_ack ≤ a.ackno ∧ (a.ackno < l.snd.next_seq → a.ackno ∈ AL.keys l.snd.timers)) ∧
+    (∀ q, mss ∣ q → q < l.snd.next_seq → Covers l.sink q ∨ q ∈ AL.keys l.snd.timers) ∧
+    (∀ b, b < l.snd.last_ack → Covers l.sink b) ∧ l.snd.last_ack ≤ l.snd.next_seq ∧ l.snd.next_seq ≤ n := by
+  obtain ⟨h, hmss⟩ := reach_mss (LInv_init (fresh_init kind cc rtt mss n now hcc hrtt hn hm hd hc)) hr
+  have hmss : l.snd.mss = mss := hmss
+  refine ⟨h.s.tm, h.s.blk, h.s.finished, fun a ha => ⟨(h.acks a ha).ge, (h.acks a ha).timed⟩, ?_, h.lap, h.s.la_le, h.s.ns_le⟩
+  rw [← hmss]
+  exact h.seg
+
 /-
 **Not proved — closed-loop liveness.**  Full statement:
 
@@ -265,5 +310,34 @@ example : ∃ s1 tx, (Sender.init .reno ({ (TCPCubic.defaults : CCState ℚ) wit
 /-- an ACK that is timely for a state with `last_ack = 0`, `mss = 512`: the ACK of segment 0 -/
 example : TimelyAct (Sender.init .reno (TCPCubic.defaults : CCState ℚ) 1 512 none 0)
     (.ack { fid := 10000, ackno := 512, pid := 0, ptime := 0 }) := ⟨Nat.le_refl _, rfl, rfl⟩
+
+/-- a concrete run of a 2-segment flow (`n = 1024`, Reno with `cc.mss = cwnd = 512`, `rtt_estimate = 1`) with one loss:
+segment 0 is sent and **dropped**; its timer expires at `t = 2` and retransmits it; it is delivered and acknowledged;
+the ACK wakes `run`, which sends segment 512 and returns; that segment is delivered and acknowledged.  The run is
+accepted action by action and ends in a quiescent state, which is complete - as `quiescent_implies_complete` says. -/
+example : ((Loop.init (Sender.init .reno ({ (TCPCubic.defaults : CCState ℚ) with mss := 512, cwnd := 512, ssthresh := 65535 })
+      1 512 (some 1024) 0)).run
+    [.own (.wake 4), .dropData 0, .own (.tick 2), .own (.fire 0), .deliver, .ackArrive, .own .handoff, .own (.wake 4),
+     .deliver, .ackArrive]).map (fun l => (decide l.Quiescent, decide (l.Complete 1024), l.sink, l.snd.last_ack))
+    = some (true, true, [(0, 1024)], 1024) := by decide +kernel
+
+/-- the state after the drop in that run is *not* quiescent (the timer of segment 0 is pending), and not complete -/
+example : ((Loop.init (Sender.init .reno ({ (TCPCubic.defaults : CCState ℚ) with mss := 512, cwnd := 512, ssthresh := 65535 })
+      1 512 (some 1024) 0)).run
+    [.own (.wake 4), .dropData 0]).map (fun l => (decide l.Quiescent, decide (l.Complete 1024), l.snd.timers.length))
+    = some (false, false, 1) := by decide +kernel
+
+/-- **the hypothesis `mss ≤ cc.mss` of `quiescent_implies_complete` is necessary** (a finding about the code: the
+generator's segment size is the constant 512 while the congestion-control object has its own `mss` parameter).  The
+same run with `TCPReno(mss=100, cwnd=512)` - `CCInv` holds, `cwnd ≥ cc.mss` - : segment 0 is sent and dropped; the
+timer expires, `timer_expired()` sets `cwnd = cc.mss = 100`, segment 0 is retransmitted, delivered, acknowledged; the
+new ACK grows the window to 200 and wakes `run`, whose guard `512 + 512 ≤ min(1024, 512 + 200)` fails; `run` blocks
+with nothing outstanding, no timer, nothing in flight: the kernel runs out of events with the second segment never
+sent (`next_seq = 512 < 1024`). -/
+example : ((Loop.init (Sender.init .reno ({ (TCPCubic.defaults : CCState ℚ) with mss := 100, cwnd := 512, ssthresh := 65535 })
+      1 512 (some 1024) 0)).run
+    [.own (.wake 4), .dropData 0, .own (.tick 2), .own (.fire 0), .deliver, .ackArrive, .own .handoff, .own (.wake 4)]).map
+      (fun l => ((decide l.Quiescent, decide (l.Complete 1024), l.sink), (l.snd.last_ack, l.snd.next_seq, l.snd.proc)))
+    = some ((true, false, [(0, 512)]), (512, 512, .blocked)) := by decide +kernel
 
 end C16
